@@ -44,8 +44,15 @@ int64_t *g_orig;           /* ghost copy of the input array (never written) */
 #define FA(j, body) __CPROVER_forall { long j; (0 <= j && j < SRU_N) ==> (body) }
 #if SRU_HYP == 1
 #define SORTED_ORIG FA(a, FA(b, (a < b && b < n) ==> g_orig[a] <= g_orig[b]))
-#else
+#elif SRU_HYP == 2
 #define SORTED_ORIG FA(a, (a + 1 < n) ==> g_orig[a] <= g_orig[a + 1])
+#else
+/* threshold form: what "sorted, P = first position of old, Q = landing position of new" says about every cell
+ * relative to old and to new (weaker than sortedness, hence a stronger theorem), plus sortedness at the three
+ * adjacent pairs around the sortedness observer */
+#define S1O(k) (!(0 <= (k) && (k) + 1 < n) || g_orig[(k)] <= g_orig[(k) + 1])
+#define SORTED_ORIG (FA(a, (a < n) ==> (((a < g_p) == (g_orig[a] < old)) && ((a < g_q + (old < new)) == (g_orig[a] <= new)))) && \
+	S1O(g_i - 1) && S1O(g_i) && S1O(g_i + 1))
 #endif
 
 #define Q_UP   (g_p <= g_q && g_q < n && g_orig[g_q] <= new && (g_q == n - 1 || g_orig[g_q + 1] > new))
@@ -75,7 +82,7 @@ __CPROVER_requires(SORTED_ORIG)
 __CPROVER_requires(0 <= g_p && g_p < n && g_orig[g_p] == old && (g_p == 0 || g_orig[g_p - 1] < old))
 __CPROVER_requires(old == new || (old < new && Q_UP) || (new < old && Q_DOWN))
 __CPROVER_requires(SRU_SPLIT)
-__CPROVER_requires(0 <= g_k && g_k < n)
+__CPROVER_requires(0 <= g_k && g_k < n && -1 <= g_i && g_i <= n)
 __CPROVER_requires(WBIND(sort_replace, w_n == n && w_p == g_p && w_q == g_q && w_k == g_k && w_old == old && w_new == new))
 __CPROVER_assigns(__CPROVER_object_whole(arr), g_died)
 /* returns only if old != new */
@@ -85,8 +92,10 @@ __CPROVER_ensures(!(old < new) || arr[g_k] == ((g_k < g_p || g_k > g_q) ? g_orig
 __CPROVER_ensures(!(new < old) || arr[g_k] == ((g_k < g_q || g_k > g_p) ? g_orig[g_k] : (g_k > g_q) ? g_orig[g_k - 1] : new))
 /* new is correctly located */
 __CPROVER_ensures(arr[g_q] == new && (g_q == 0 || arr[g_q - 1] <= new) && (g_q == n - 1 || new <= arr[g_q + 1]))
+#ifndef SRU_NOSORTOBS
 /* sorted again (arbitrary adjacent pair) */
 __CPROVER_ensures(!(0 <= g_i && g_i < n - 1) || arr[g_i] <= arr[g_i + 1])
+#endif
 ;
 
 void h_sort_replace(void)
